@@ -637,8 +637,10 @@ class BuiltinMixin:
         st.pc.append(z3.ForAll([k], z3.Implies(z3.And(0 <= k, k < th.Len(keys)),
                                                z3.And(z3.Select(dom, th.Idx(keys, k)), pos(th.Idx(keys, k)) == k)),
                                patterns=[th.Idx(keys, k)]))
+        W = prelude().func("Wit", Int, Bool)
         st.pc.append(z3.ForAll([x], z3.Implies(z3.Select(dom, x),
-                                               z3.And(0 <= pos(x), pos(x) < th.Len(keys), th.Idx(keys, pos(x)) == x)),
+                                               z3.And(0 <= pos(x), pos(x) < th.Len(keys), th.Idx(keys, pos(x)) == x,
+                                                      W(pos(x)))),      # position of x: a witness for exists()
                                patterns=[z3.Select(dom, x)]))
         st.pc.append(th.Len(keys) == self.dict_size(st, d))
         if which == "keys":
